@@ -86,9 +86,12 @@ class Transfer(explore.Scenario):
     max_steps = 400000
     max_time = 60.0
 
-    def __init__(self, op, keys, ts, max_pdu, chunk_send, chunk_recv, tmpdir):
+    def __init__(self, op, keys, ts, max_pdu, chunk_send, chunk_recv, tmpdir, ds_ts=None):
         self.op, self.keys, self.ts, self.max_pdu, self.cs, self.cr, self.tmpdir = op, tuple(keys), ts, max_pdu, chunk_send, chunk_recv, tmpdir
-        self.name = f"transfer[{op},{ts},max={max_pdu},cs={int(chunk_send)},cr={int(chunk_recv)}]"
+        # ds_ts: the transfer syntax the dataset itself declares in its file meta, when it differs from
+        # the accepted context's (pynetdicom converts between uncompressed / deflated syntaxes)
+        self.ds_ts = ds_ts
+        self.name = f"transfer[{op},{ts},max={max_pdu},cs={int(chunk_send)},cr={int(chunk_recv)}{'' if ds_ts is None else ',dataset-declares-' + ds_ts}]"
 
     def build(self, s):
         from pydicom import dcmread
@@ -145,7 +148,7 @@ class Transfer(explore.Scenario):
 
         def on_get(event):
             yield 1
-            yield 0xFF00, _with_meta(make_ds(self.keys), ts)
+            yield 0xFF00, _with_meta(make_ds(self.keys), TS[self.ds_ts] if self.ds_ts else ts)
 
         def on_n(event):
             attr = {"EVT_N_SET": "modification_list", "EVT_N_CREATE": "attribute_list", "EVT_N_ACTION": "action_information", "EVT_N_EVENT_REPORT": "event_information"}[event.event.name]
@@ -165,7 +168,7 @@ class Transfer(explore.Scenario):
                 return
             try:
                 if self.op == "store":
-                    ds = _with_meta(make_ds(self.keys), ts)
+                    ds = _with_meta(make_ds(self.keys), TS[self.ds_ts] if self.ds_ts else ts)
                     if self.cs:
                         path = os.path.join(self.tmpdir, f"send_{os.getpid()}.dcm")
                         ds.save_as(path, enforce_file_format=True) if hasattr(ds, "save_as") else None
@@ -260,6 +263,14 @@ def gen(quick):
                 yield (op, ks, ts, 16382, False, False)
             yield (op, full[0], ts, small_pdus[-1], False, False)
         yield ("get", full[0], ts, 16382, False, True)
+    # datasets that declare another (convertible) transfer syntax than the accepted context's
+    conv = [k for k in TS if k != "EVRBE"]
+    for ts in conv:
+        for ds_ts in conv:
+            if ds_ts != ts:
+                for op in ("store", "get"):
+                    yield (op, full[0], ts, 16382, False, False, ds_ts)
+                    yield (op, ("LO_odd",), ts, small_pdus[0], False, False, ds_ts)
 
 
 def _chunk(cases):
@@ -268,11 +279,11 @@ def _chunk(cases):
     outcomes = set()
     try:
         for c in cases:
-            scn = Transfer(*c, tmpdir=tmp)
+            scn = Transfer(*c[:6], tmpdir=tmp, ds_ts=c[6] if len(c) > 6 else None)
             r = explore.execute(scn, ())
             outcomes.add((c[0], c[2], r["summary"][2]))
             for k, t in r["viol"]:
-                out.setdefault(k, (t, {"case": [c[0], list(c[1]), c[2], c[3], c[4], c[5]]}))
+                out.setdefault(k + (f":declares-{c[6]}" if len(c) > 6 else ""), (t, {"case": [c[0], list(c[1]), c[2], c[3], c[4], c[5]] + ([c[6]] if len(c) > 6 else [])}))
     finally:
         for fn in os.listdir(tmp):
             try:
@@ -310,7 +321,7 @@ def run(ctx: core.Ctx) -> core.Result:
 def replay(ctx, data):
     c = data["case"]
     tmp = tempfile.mkdtemp(prefix="vk-c25-")
-    r = explore.execute(Transfer(c[0], tuple(c[1]), c[2], c[3], c[4], c[5], tmpdir=tmp), ())
+    r = explore.execute(Transfer(c[0], tuple(c[1]), c[2], c[3], c[4], c[5], tmpdir=tmp, ds_ts=c[6] if len(c) > 6 else None), ())
     print(r["why"], r["summary"])
     for k, t in r["viol"]:
         print("VIOLATED:", k, t)
